@@ -26,8 +26,8 @@ EXTENDS SchemaDecl, Export
 \* fields must therefore be met before payload fields of different types: this definition is the
 \* first place any of these names occurs.  (Values.tla has an ASSUME that fails at start-up if
 \* the order is ever wrong.)
-FieldOrder == [fam |-> 0, kind |-> 0, k |-> 0, rep |-> 0, ok |-> 0, d |-> 0, some |-> 0, op |-> 0, id |-> 0, v |-> 0]
-CONSTANTS Mode,     \* "c02" | "c04" | "bind"
+FieldOrder == [fam |-> 0, kind |-> 0, k |-> 0, rep |-> 0, t |-> 0, ok |-> 0, d |-> 0, some |-> 0, op |-> 0, id |-> 0, name |-> 0, v |-> 0]
+CONSTANTS Mode,     \* "c02" | "c04" | "c03" | "c01" | "bind"
           Deep      \* FALSE: quick tier (depth 2), TRUE: thorough tier (depth 3, longer collections)
 VARIABLE vec
 
@@ -203,6 +203,18 @@ AnyRaw ==
           L("typed", <<I("uint64", IMax + 1)>>), L("typed", <<Str("a"), Str("b")>>), L("bytes", <<I("uint8", 1)>>)}
 
 \* ------------------------------------------------------------------ C04: kinds x classes x positions
+C04ObjLeafs ==
+    { ObjectS("O", << Prop("a", IntS(Some(1), Some(2), None), TRUE), Prop("b", StringS(None, None, None), FALSE) >>, "map", FALSE),
+      ObjectS("O", << Prop("a", IntS(Some(1), Some(2), None), FALSE) >>, "map", FALSE),
+      ObjectS("O", << Prop("a", IntS(Some(1), Some(2), None), FALSE), Prop("x", AnyS, FALSE) >>, "ptrs", TRUE),
+      ObjectS("E", << PropS("l", ListS(IntS(None, None, None), None, None, FALSE), FALSE, <<>>, <<>>, <<>>, None, FALSE, TRUE),
+                      PropS("m", MapS(StringS(None, None, None), IntS(None, None, None), None, None, FALSE), FALSE, <<>>, <<>>, <<>>, None, FALSE, TRUE),
+                      PropS("b", StringS(None, None, None), FALSE, <<>>, <<>>, <<>>, None, FALSE, TRUE) >>, "wide", FALSE),
+      OneOfS("string", "type", FALSE, << <<"a", ObjectS("A", <<Prop("a", IntS(Some(1), Some(2), None), TRUE)>>, "map", FALSE)>>,
+                                         <<"b", ObjectS("B", <<Prop("b", StringS(None, None, None), FALSE)>>, "map", FALSE)>> >>),
+      OneOfS("int", "type", TRUE, << <<1, ObjectS("A", <<Prop("a", IntS(Some(1), Some(2), None), TRUE), Prop("type", IntS(None, None, None), TRUE)>>, "map", FALSE)>> >>),
+      OneOfS("string", "type", FALSE, << <<"a", ObjectS("A", <<Prop("a", IntS(Some(1), Some(2), None), TRUE)>>, "sub", FALSE)>> >>),
+      ScopeS("R", << ObjectS("R", << Prop("a", IntS(Some(1), Some(2), None), TRUE), Prop("n", RefS("R"), FALSE) >>, "map", FALSE) >>) }
 C04Leafs ==
     { IntS(Some(1), Some(2), None), IntS(None, None, Some("sec")), FloatS(Some(2), Some(4), None),
       StringS(Some(1), Some(2), Some("lower")), BoolS, PatternS, EnumIntS(<<1, 2>>, None),
@@ -212,6 +224,7 @@ C04Leafs ==
       MapS(StringS(None, None, None), IntS(Some(1), Some(2), None), None, Some(2), FALSE),
       MapS(IntS(None, None, None), AnyS, None, None, FALSE),
       MapS(EnumStrS(<<"a", "b">>, FALSE), StringS(None, None, None), None, None, TRUE) }
+    \cup C04ObjLeafs
 C04Values ==
     {Nil, B(TRUE), B(FALSE), BR("named", TRUE)}
     \cup {I(r, 1) : r \in IntReps \cup {"named"}} \cup {I("uint64", IMax + 1), I64(IMin), I64(IMax), I64(0), I("int", -1), I("named", 0)}
@@ -230,7 +243,15 @@ C04Values ==
           M("any_any", << <<FS("float64", "nan"), I64(1)>> >>), M("any_any", << <<FS("float64", "+inf"), Str("a")>> >>),
           M("typed", << <<FS("float64", "nan"), I64(1)>> >>)}
     \cup {Re("a")} \cup {J(c) : c \in JunkClasses}
-Hashable(x) == x.k \in {"nil", "bool", "int", "float", "fspecial", "str", "re"} \/ (x.k = "junk" /\ x.v \in {"time", "struct", "ptr", "nilptr", "nilre", "chan"})
+    \cup { M("any_any", << <<Str("a"), I64(1)>>, <<Str("type"), Str("a")>> >>), M("string_any", << <<Str("a"), I64(1)>>, <<Str("type"), Str("a")>> >>),
+           M("string_any", << <<Str("a"), I64(1)>>, <<Str("type"), I64(1)>> >>), M("any_any", << <<Str("a"), I64(1)>>, <<Str("type"), I("uint64", 1)>> >>),
+           M("int64_any", << <<I64(1), Str("type")>> >>), M("typed", << <<Str("type"), Str("a")>> >>), M("typed", << <<S("named", "type"), Str("a")>> >>),
+           M("string_any", << <<Str("type"), Nil>> >>), M("string_any", << <<Str("a"), I64(1)>>, <<Str("n"), M("any_any", << <<Str("a"), Nil>> >>)>> >>),
+           Struct("wide", << <<"l", Some(L("typed", <<>>))>>, <<"m", Some(M("typed", <<>>))>>, <<"b", Some(Str("#empty"))>> >>),
+           Struct("wide", << <<"l", Some(L("typed", <<I64(1)>>))>>, <<"m", Some(M("typed", << <<Str("a"), I64(1)>> >>))>>, <<"b", Some(Str("a"))>> >>),
+           Struct("ptrs", << <<"a", Some(I64(1))>>, <<"x", None>> >>), Struct("ptrs", << <<"a", None>>, <<"x", Some(L("any", <<Nil>>))>> >>),
+           Struct("sub", << <<"a", Some(I64(1))>> >>), Struct("sub_p", << <<"a", Some(I64(1))>> >>), Struct("notag", << <<"A", Some(I64(1))>> >>) }
+Hashable(x) == x.k \in {"nil", "bool", "int", "float", "fspecial", "str", "re", "struct"} \/ (x.k = "junk" /\ x.v \in {"time", "struct", "ptr", "nilptr", "nilre", "chan"})
 StrKey == StringS(None, None, None)
 \* one level of context around (leaf, x)
 Wrap1(leaf, x) ==
@@ -244,6 +265,175 @@ Wrap1(leaf, x) ==
 Positions(leaf, x) ==
     { <<leaf, x>> } \cup Wrap1(leaf, x)
     \cup (IF Deep THEN UNION { Wrap1(p[1], p[2]) : p \in Wrap1(leaf, x) } ELSE {})
+
+
+\* ------------------------------------------------------------------ C03: objects, one-of, references
+TA == IntS(Some(1), Some(2), None)
+TB == StringS(Some(1), Some(2), None)
+TC == BoolS
+\* all sub-sequences (in the given order) of a sequence of names
+RECURSIVE SubSeqs(_)
+SubSeqs(q) == IF Len(q) = 0 THEN { <<>> } ELSE LET r == SubSeqs(Tail(q)) IN r \cup {<<Head(q)>> \o x : x \in r}
+\* every flag combination of one property, its rule lists ranging over the other properties
+PropFlags(name, type, others, def, disSet, eidSet) ==
+    {PropS(name, type, req, rif, rifn, cf, dv, dis, eid) :
+        req \in BOOLEAN, rif \in SubSeqs(others), rifn \in SubSeqs(others), cf \in SubSeqs(others),
+        dv \in {None, Some(def)}, dis \in disSet, eid \in eidSet}
+\* one rule kind per property (the reduced lattice for three properties)
+PropReduced(name, type, others, def) ==
+    {Prop(name, type, FALSE), Prop(name, type, TRUE),
+     PropS(name, type, FALSE, <<>>, <<>>, <<>>, Some(def), FALSE, FALSE),
+     PropS(name, type, FALSE, <<>>, <<>>, <<>>, None, TRUE, FALSE)}
+    \cup {PropS(name, type, FALSE, q, <<>>, <<>>, None, FALSE, FALSE) : q \in SubSeqs(others) \ { <<>> }}
+    \cup {PropS(name, type, FALSE, <<>>, q, <<>>, None, FALSE, FALSE) : q \in SubSeqs(others) \ { <<>> }}
+    \cup {PropS(name, type, FALSE, <<>>, <<>>, q, None, FALSE, FALSE) : q \in SubSeqs(others) \ { <<>> }}
+DefA == F64(2)            \* the JSON text 1 decodes to float64(1)
+DefB == Str("a")
+DefC == B(TRUE)
+Objs1(layout, dis, eid) == {ObjectS("O", <<pa>>, layout, FALSE) : pa \in PropFlags("a", TA, <<>>, DefA, dis, eid)}
+Objs2(layout, dis, eid) ==
+    {ObjectS("O", <<pa, pb>>, layout, FALSE) :
+        pa \in PropFlags("a", TA, <<"b">>, DefA, dis, eid), pb \in PropFlags("b", TB, <<"a">>, DefB, dis, eid)}
+Objs3(layout) ==
+    {ObjectS("O", <<pa, pb, pc>>, layout, FALSE) :
+        pa \in PropReduced("a", TA, <<"b", "c">>, DefA), pb \in PropReduced("b", TB, <<"a", "c">>, DefB),
+        pc \in PropReduced("c", TC, <<"a", "b">>, DefC)}
+\* per property: a valid and an invalid raw value, a valid and an invalid native value
+RawChoices(n) ==
+    CASE n = "a" -> {I64(1), I64(3)}
+      [] n = "b" -> {Str("a"), Str("abc")}
+      [] n = "c" -> {B(TRUE), I64(2)}
+      [] n = "l" -> {L("any", <<I64(1)>>), L("any", <<>>), L("any", <<I64(3)>>)}
+NatChoices(n) ==
+    CASE n = "a" -> {I64(1), I64(3)}
+      [] n = "b" -> {Str("a"), Str("abc")}
+      [] n = "c" -> {B(TRUE)}
+\* every mapping: a subset of the properties supplied, each with one of its choices
+RECURSIVE PairSets(_, _)
+PairSets(names, native) ==
+    IF Len(names) = 0 THEN { <<>> }
+    ELSE LET rest == PairSets(Tail(names), native)
+             ch == IF native THEN NatChoices(Head(names)) ELSE RawChoices(Head(names))
+         IN rest \cup {<< <<Str(Head(names)), w>> >> \o r : w \in ch, r \in rest}
+NamesOf(s) == [i \in DOMAIN s.props |-> s.props[i].name]
+ObjRawArgs(s) ==
+    {M("any_any", ps) : ps \in PairSets(NamesOf(s), FALSE)}
+ObjRawExtra(s) ==
+    { M("string_any", << <<Str("a"), I64(1)>> >>), M("typed", << <<Str("a"), I64(1)>> >>),
+      M("any_any", << <<Str("a"), I64(1)>>, <<Str("x"), I64(1)>> >>),            \* an undeclared key
+      M("any_any", << <<Str("a"), I64(1)>>, <<I64(1), I64(1)>> >>),              \* a non-string key
+      M("any_any", << <<S("named", "a"), I64(1)>> >>),                           \* a key of a defined string type
+      M("int64_any", << <<I64(1), I64(1)>> >>),
+      M("any_any", << <<Str("a"), Nil>> >>), M("any_any", << <<Str("a"), Str("1")>> >>), M("any_any", << <<Str("a"), I("uint64", 2)>> >>),
+      Nil, I64(1), I64(3), Str("1"), Str("a"), L("any", <<I64(1)>>), J("ptr") }
+\* native values: map-based
+ObjNatArgs(s) == {M("string_any", ps) : ps \in PairSets(NamesOf(s), TRUE)}
+\* native values: struct-mapped (every field: absent where the field can be, else one of the choices or zero)
+RECURSIVE FieldSeqs(_, _, _)
+FieldSeqs(s, i, acc) ==
+    IF i > Len(s.props) THEN {acc}
+    ELSE LET p == s.props[i]
+             z == FieldZero(s, p)
+             opts == {Some(w) : w \in NatChoices(p.name)} \cup {z}
+         IN UNION {FieldSeqs(s, i + 1, Append(acc, <<p.name, o>>)) : o \in opts}
+StructNatArgs(s) == {Struct(s.layout, fs) : fs \in FieldSeqs(s, 1, <<>>)}
+NatArgs(s) == IF s.layout = "map" THEN ObjNatArgs(s) ELSE StructNatArgs(s)
+NatExtra(s) == { M("any_any", << <<Str("a"), I64(1)>> >>), M("string_any", << <<Str("a"), I64(1)>>, <<Str("x"), I64(1)>> >>),
+                 M("string_any", << <<Str("a"), Nil>> >>), Nil, I64(1), Struct("notag", << <<"A", Some(I64(1))>>, <<"B", Some(Str("a"))>> >>), J("struct") }
+
+\* sub-objects (finding 19) and every field kind of the catalogue
+SubObj(defA) == ObjectS("S", << PropS("a", IntS(None, None, None), FALSE, <<>>, <<>>, <<>>, defA, FALSE, ~defA.some),
+                               PropS("b", StringS(None, None, None), FALSE, <<>>, <<>>, <<>>, Some(Str("b")), FALSE, FALSE) >>, "sub", FALSE)
+SubObjects ==
+    { ObjectS("P", << Prop("a", TA, TRUE), PropS("s", SubObj(Some(F64(6))), FALSE, <<>>, <<>>, <<>>, dv, FALSE, FALSE) >>, lay, FALSE) :
+        dv \in {None, Some(M("string_any", << <<Str("a"), F64(10)>> >>)), Some(M("string_any", <<>>))}, lay \in {"wide", "wide_p"} }
+    \cup { ObjectS("P", << Prop("a", TA, TRUE), Prop("sp", SubObj(None), FALSE) >>, "wide", FALSE),
+           ObjectS("P", << Prop("a", TA, TRUE), Prop("s", SubObj(None), TRUE) >>, "ptrs", TRUE) }
+SubRawArgs ==
+    { M("any_any", << <<Str("a"), I64(1)>> >>), M("any_any", << <<Str("a"), I64(1)>>, <<Str("s"), M("any_any", <<>>)>> >>),
+      M("any_any", << <<Str("a"), I64(1)>>, <<Str("s"), M("string_any", << <<Str("a"), I64(7)>> >>)>> >>),
+      M("any_any", << <<Str("a"), I64(1)>>, <<Str("sp"), M("string_any", << <<Str("a"), I64(7)>> >>)>> >>),
+      M("any_any", << <<Str("a"), I64(1)>>, <<Str("s"), M("string_any", << <<Str("x"), I64(7)>> >>)>> >>),
+      M("any_any", << <<Str("a"), I64(1)>>, <<Str("s"), I64(1)>> >>) }
+Opt3(name, type, eid) == PropS(name, type, FALSE, <<>>, <<>>, <<>>, None, FALSE, eid)
+ZooProps(eid) ==
+    << Prop("a", TA, FALSE), Prop("b", TB, FALSE), Prop("c", TC, FALSE), Prop("f", FloatS(None, Some(4), None), FALSE),
+       Prop("e", EnumStrS(<<"a", "b">>, TRUE), FALSE), Opt3("l", ListS(TA, None, Some(2), FALSE), eid),
+       Opt3("ls", ListS(TB, None, None, FALSE), eid), Opt3("m", MapS(StringS(None, None, None), TA, None, None, FALSE), eid),
+       Prop("x", AnyS, FALSE) >>
+ZooObjs == { ObjectS("Z", ZooProps(FALSE), "map", FALSE), ObjectS("Z", ZooProps(TRUE), "ptrs", FALSE), ObjectS("Z", ZooProps(TRUE), "ptrs", TRUE) }
+ZooRaw ==
+    { M("any_any", <<>>),
+      M("any_any", << <<Str("a"), I("uint64", 1)>>, <<Str("b"), Str("a")>>, <<Str("c"), Str("yes")>>, <<Str("f"), I64(1)>>, <<Str("e"), Str("a")>>,
+                      <<Str("l"), L("any", <<I64(1), Str("2")>>)>>, <<Str("ls"), L("typed", <<Str("a")>>)>>,
+                      <<Str("m"), M("any_any", << <<Str("a"), I64(2)>> >>)>>, <<Str("x"), L("any", <<I("int", 1)>>)>> >>),
+      M("string_any", << <<Str("l"), L("any", <<I64(1), I64(3)>>)>> >>), M("string_any", << <<Str("e"), Str("c")>> >>),
+      M("string_any", << <<Str("m"), M("any_any", << <<I64(1), I64(1)>> >>)>> >>), M("string_any", << <<Str("x"), Nil>> >>),
+      M("string_any", << <<Str("f"), FS("float64", "nan")>> >>), M("string_any", << <<Str("l"), L("any", <<>>)>>, <<Str("ls"), L("any", <<>>)>> >>) }
+
+\* treat-empty-as-default on by-value fields (struct layouts only)
+EidObjs ==
+    { ObjectS("E", << PropS("a", IntS(None, Some(2), None), req, <<>>, <<>>, cf, None, FALSE, TRUE),
+                      PropS("b", StringS(None, Some(2), None), FALSE, rif, <<>>, <<>>, None, FALSE, eb) >>, "wide", FALSE) :
+        req \in BOOLEAN, cf \in SubSeqs(<<"b">>), rif \in SubSeqs(<<"a">>), eb \in {TRUE} }
+    \cup { ObjectS("E", << PropS("l", ListS(TA, None, None, FALSE), FALSE, <<>>, <<>>, <<>>, None, FALSE, TRUE) >>, "wide", FALSE) }  \* finding 15
+EidNat(s) ==
+    IF Len(s.props) = 1
+    THEN { Struct("wide", << <<"l", Some(L("typed", xs))>> >>) : xs \in { <<>>, <<I64(1)>>, <<I64(3)>> } }
+    ELSE { Struct("wide", << <<"a", Some(I64(x))>>, <<"b", Some(Str(y))>> >>) : x \in {0, 1, 3}, y \in {"#empty", "a", "abc"} }
+
+\* one-of
+DiscProp(disc) == Prop("type", IF disc = "int" THEN IntS(None, None, None) ELSE StringS(None, None, None), TRUE)
+MemberObj(id, p, disc, inl, layout) == ObjectS(id, IF inl THEN <<p, DiscProp(disc)>> ELSE <<p>>, layout, FALSE)
+OneOfs ==
+    { OneOfS(disc, "type", inl,
+             IF disc = "int"
+             THEN [i \in 1..n |-> <<i, MemberObj(<<"A", "B", "C">>[i], <<Prop("a", TA, TRUE), Prop("b", TB, FALSE), Prop("c", TC, TRUE)>>[i], disc, inl, "map")>>]
+             ELSE [i \in 1..n |-> <<(<<"a", "b", "1">>)[i], MemberObj(<<"A", "B", "C">>[i], <<Prop("a", TA, TRUE), Prop("b", TB, FALSE), Prop("c", TC, TRUE)>>[i], disc, inl, "map")>>]) :
+        disc \in {"string", "int"}, inl \in BOOLEAN, n \in {2, 3} }
+OneOfStruct ==
+    { OneOfS(disc, "type", FALSE,
+             << <<IF disc = "int" THEN 1 ELSE "a", ObjectS("A", <<Prop("a", TA, TRUE)>>, "sub", FALSE)>>,
+                <<IF disc = "int" THEN 2 ELSE "b", ObjectS("B", <<Prop("B", TB, TRUE)>>, "notag", FALSE)>> >>) : disc \in {"string", "int"} }
+DiscRaws == { Str("a"), Str("b"), Str("1"), Str("2"), Str("c"), I64(1), I("uint64", 1), I64(2), I64(9), F64(2), B(TRUE), Nil, S("named", "a") }
+Bodies == { <<>>, << <<Str("a"), I64(1)>> >>, << <<Str("a"), I64(3)>> >>, << <<Str("b"), Str("a")>> >>, << <<Str("c"), B(TRUE)>> >>,
+            << <<Str("a"), I64(1)>>, <<Str("x"), I64(1)>> >> }
+OneOfRawArgs ==
+    {M(r, body \o << <<Str("type"), d>> >>) : r \in {"any_any", "string_any"}, body \in Bodies, d \in DiscRaws}
+    \cup {M("any_any", body) : body \in Bodies}
+    \cup { M("int64_any", << <<I64(1), I64(1)>> >>), M("typed", << <<Str("type"), Str("a")>> >>), M("typed", << <<S("named", "type"), Str("a")>> >>),
+           M("any_any", << <<Str("type"), Str("a")>>, <<I64(1), I64(1)>> >>), Nil, Str("a"), L("any", <<>>), J("struct"),
+           M("any_any", << <<Str("B"), Str("a")>>, <<Str("type"), Str("b")>> >>), M("any_any", << <<Str("B"), Str("a")>>, <<Str("type"), I64(2)>> >>) }
+NatDiscs == { Str("a"), Str("b"), Str("c"), I64(1), I64(2), I("uint64", 1), I64(9), Nil }
+OneOfNatArgs ==
+    {M("string_any", body \o << <<Str("type"), d>> >>) : body \in Bodies, d \in NatDiscs}
+    \cup {M("string_any", body) : body \in Bodies}
+    \cup { M("any_any", << <<Str("a"), I64(1)>>, <<Str("type"), Str("a")>> >>), Nil, Str("a"),
+           Struct("sub", << <<"a", Some(I64(1))>> >>), Struct("sub", << <<"a", Some(I64(3))>> >>),
+           Struct("notag", << <<"B", Some(Str("a"))>> >>), Struct("wide", << <<"a", Some(I64(1))>> >>) }
+
+\* references: a self-referential object, a reference to a sibling object, a one-of over references
+SelfScope(layout) ==
+    ScopeS("R", << ObjectS("R", << Prop("a", TA, TRUE), Prop(IF layout = "map" THEN "n" ELSE "sp", RefS("R"), FALSE) >>, layout, FALSE) >>)
+RefScopes ==
+    { SelfScope("map") }
+    \cup { ScopeS("R", << ObjectS("R", << Prop("a", TA, TRUE), Prop("n", RefS("N"), FALSE) >>, "map", FALSE),
+                          ObjectS("N", << PropS("b", TB, FALSE, <<>>, <<>>, <<>>, Some(DefB), FALSE, FALSE) >>, "map", FALSE) >>),
+           ScopeS("R", << ObjectS("R", << Prop("u", OneOfS("string", "type", FALSE, << <<"a", RefS("A")>>, <<"b", RefS("R")>> >>), FALSE) >>, "map", FALSE),
+                          ObjectS("A", << Prop("a", TA, TRUE) >>, "map", FALSE) >>),
+           ScopeS("R", << ObjectS("R", << Prop("l", ListS(RefS("N"), None, Some(2), FALSE), FALSE) >>, "map", FALSE),
+                          ObjectS("N", << Prop("a", TA, TRUE) >>, "map", FALSE) >>) }
+RefRawArgs ==
+    LET leafs == { M("any_any", << <<Str("a"), I64(1)>> >>), M("any_any", << <<Str("a"), I64(3)>> >>), M("any_any", <<>>), I64(1) }
+        wrap(n, x) == M("any_any", << <<Str("a"), I64(1)>>, <<Str(n), x>> >>)
+    IN leafs \cup {wrap("n", x) : x \in leafs} \cup {wrap("n", wrap("n", x)) : x \in leafs}
+       \cup { M("any_any", << <<Str("a"), I64(1)>>, <<Str("n"), M("any_any", << <<Str("b"), Str("a")>> >>)>> >>),
+              M("any_any", << <<Str("a"), I64(1)>>, <<Str("n"), M("any_any", << <<Str("b"), Str("abc")>> >>)>> >>),
+              M("any_any", << <<Str("u"), M("any_any", << <<Str("type"), Str("a")>>, <<Str("a"), I64(1)>> >>)>> >>),
+              M("any_any", << <<Str("u"), M("any_any", << <<Str("type"), Str("b")>>,
+                                <<Str("u"), M("any_any", << <<Str("type"), Str("a")>>, <<Str("a"), I64(3)>> >>)>> >>)>> >>),
+              M("any_any", << <<Str("l"), L("any", << M("any_any", << <<Str("a"), I64(1)>> >>), M("any_any", << <<Str("a"), I64(3)>> >>) >>)>> >>),
+              M("any_any", << <<Str("l"), L("any", << M("any_any", << <<Str("a"), I64(1)>> >>) >>)>> >>) }
 
 \* ------------------------------------------------------------------ bind tables
 WireSamples ==
@@ -285,14 +475,37 @@ InitC04 ==
         \/ \E op \in {"valid", "ser"} : vec = Vec(p[1], op, p[2])
         \/ Decodable(x) /\ \E op \in {"unser", "compat"} : vec = Vec(p[1], op, p[2])
 
+DisSet == IF Deep THEN BOOLEAN ELSE {FALSE}
+C03Objects ==
+    Objs1("map", BOOLEAN, {FALSE}) \cup Objs2("map", DisSet, {FALSE})
+    \cup Objs1("ptrs", BOOLEAN, {FALSE}) \cup Objs2("ptrs", DisSet, {FALSE})
+    \cup (IF Deep THEN Objs3("map") \cup Objs3("ptrs") ELSE {})
+InitC03 ==
+    \/ \E s \in C03Objects :
+          \/ \E x \in ObjRawArgs(s) : vec = Vec(s, "unser", x)
+          \/ Len(s.props) <= 2 /\ ~(\E i \in DOMAIN s.props : s.props[i].disabled) /\ \E x \in ObjRawExtra(s) : \E op \in {"unser", "compat"} : vec = Vec(s, op, x)
+          \/ \E x \in NatArgs(s) : vec = Vec(s, "valid", x)
+          \/ (Deep \/ Len(s.props) = 1 \/ s.layout = "map") /\ \E x \in NatArgs(s) : vec = Vec(s, "ser", x)
+          \/ Len(s.props) = 1 /\ \E x \in NatExtra(s) : \E op \in {"valid", "ser"} : vec = Vec(s, op, x)
+    \/ \E s \in SubObjects : \E x \in SubRawArgs : vec = Vec(s, "unser", x)
+    \/ \E s \in ZooObjs : \E x \in ZooRaw : vec = Vec(s, "unser", x)
+    \/ \E s \in EidObjs :
+          \/ \E x \in ObjRawArgs(s) : vec = Vec(s, "unser", x)
+          \/ \E x \in EidNat(s) : \E op \in {"valid", "ser"} : vec = Vec(s, op, x)
+    \/ \E s \in OneOfs \cup OneOfStruct :
+          \/ \E x \in OneOfRawArgs : \E op \in {"unser", "compat"} : vec = Vec(s, op, x)
+          \/ \E x \in OneOfNatArgs : \E op \in {"valid", "ser"} : vec = Vec(s, op, x)
+    \/ \E s \in RefScopes : \E x \in RefRawArgs : \E op \in {"unser", "compat"} : vec = Vec(s, op, x)
+
 InitBind ==
     \/ vec = [fam |-> "bind", what |-> "strings", toks |-> TokSeq, dec |-> DecSeq, ftok |-> FSeq,
-            imax |-> IMax, imin |-> IMin, symlen |-> SymLen]
+            imax |-> IMax, imin |-> IMin, symlen |-> SymLen, layouts |-> Layouts]
     \/ vec = [fam |-> "bind", what |-> "transport", cases |-> [i \in DOMAIN WireSamples |-> TransportCase(WireSamples[i])]]
 
 Init ==
     CASE Mode = "c02" -> InitC02
       [] Mode = "c04" -> InitC04
+      [] Mode = "c03" -> InitC03
       [] Mode = "bind" -> InitBind
 Next == UNCHANGED vec
 Spec == Init /\ [][Next]_vec
@@ -309,7 +522,7 @@ ExactOK == (IsVec /\ vec.op = "unser") => Refines(vec.mod, vec.exp)
 SamePathsOK ==
     (IsVec /\ vec.op \in {"valid", "ser"}) =>
         /\ Refines(vec.mod, vec.exp)
-        /\ IsNative(vec.s, vec.arg) => vec.mod.ok \in {"yes", "no"} /\ vec.exp.ok \in {"yes", "no"}
+        /\ (IsNative(vec.s, vec.arg) /\ ~UsesDisabled(vec.s, vec.arg)) => vec.mod.ok \in {"yes", "no"} /\ vec.exp.ok \in {"yes", "no"}
 \* C04 on the model: every operator yields an outcome for this (position, class) - a missing
 \* CASE arm would already have stopped TLC while computing the vector
 TotalOK == IsVec => /\ vec.mod.ok \in {"yes", "no", "maybe"} /\ vec.exp.ok \in {"yes", "no", "maybe"}
